@@ -2894,6 +2894,16 @@ func minLenOf(c *Ctx, v ssa.Value, b *ssa.BasicBlock, depth int) int64 {
 		if n := minLenOf(c, x.X, b, depth+1); n > best {
 			best = n
 		}
+	case *ssa.Call:
+		switch calleeFullName(x) {
+		case "strings.Split", "strings.SplitN", "strings.SplitAfter":
+			// splitting at a non-empty separator yields at least one piece (the text itself)
+			if len(x.Call.Args) >= 2 {
+				if k, ok := x.Call.Args[1].(*ssa.Const); ok && k.Value != nil && k.Value.Kind() == constant.String && constant.StringVal(k.Value) != "" && best < 1 {
+					best = 1
+				}
+			}
+		}
 	}
 	return best
 }
@@ -2957,7 +2967,14 @@ func fromLibraryBytes(c *Ctx, v ssa.Value) bool {
 	}
 	switch t := v.Type().Underlying().(type) {
 	case *types.Slice:
+		// bytes of a decoding or a file; the pieces a text was split into (strings.Split, Fields, regexp matches)
 		b, ok := t.Elem().Underlying().(*types.Basic)
+		if ok && b.Kind() == types.String {
+			// how many pieces there are depends on the text (the submatches of a regular expression are as many as the
+			// expression has groups: TAB-DATE looks at those)
+			name := calleeFullName(call)
+			return strings.HasPrefix(name, "strings.Split") || strings.HasPrefix(name, "strings.Fields")
+		}
 		return ok && b.Kind() == types.Byte
 	}
 	return false
